@@ -193,11 +193,19 @@ def trace_correspondence(ctx, n, dis):
                               nu_pre=1, nu_coarse=1, nu_post=1, maxit=3, tol=1e-30)),
              ((12, 3, 6), dict(cycle='W', semicoarsening=0, linerelaxation=7, clevel=1, nu_init=0,
                                nu_pre=0, nu_coarse=2, nu_post=2, maxit=2, tol=1e-30))]
-    for s, c in fixed:
-        cases.append((s, c))
+    fixed += [((16, 4, 4), dict(cycle='F', semicoarsening=0, linerelaxation=0, clevel=-1, nu_init=0,
+                                nu_pre=1, nu_coarse=1, nu_post=1, maxit=2, tol=1e-30)),
+              ((4, 32, 6), dict(cycle='F', semicoarsening=2, linerelaxation=4, clevel=-1, nu_init=0,
+                                nu_pre=1, nu_coarse=1, nu_post=1, maxit=1, tol=1e-30)),
+              ((3, 5, 48), dict(cycle='W', semicoarsening=True, linerelaxation=0, clevel=3, nu_init=0,
+                                nu_pre=1, nu_coarse=1, nu_post=0, maxit=3, tol=1e-30))]
+    cases = list(fixed)
     while len(cases) < n:
-        shape = tuple(rng.choice([2, 3, 4, 5, 6, 8, 10, 12]) for _ in range(3))
-        cases.append((shape, rand_cfg(rng)))
+        # at least one long direction so that three and more levels occur
+        shape = [rng.choice([2, 3, 4, 5, 6, 8, 10, 12]) for _ in range(3)]
+        if rng.random() < 0.5:
+            shape[rng.randrange(3)] = rng.choice([16, 24, 32, 48])
+        cases.append((tuple(shape), rand_cfg(rng)))
     texts, runs = [], []
     for i, (shape, cfg) in enumerate(cases):
         ev, info = impl_trace(shape, cfg)
@@ -283,7 +291,7 @@ def table_correspondence(ctx, dis):
                   [(2, 5, n) for n in range(41, 1025)]
     users = [-1, 0, 1, 2, 5]
     impl = params_table(shapes, users)
-    chunks = [shapes[i:i + 4000] for i in range(0, len(shapes), 4000)]
+    chunks = [shapes[i:i + 700] for i in range(0, len(shapes), 700)]
     texts = []
     for ci, ch in enumerate(chunks):
         sl = '[' + '; '.join(f"({a},{b},{c})" for a, b, c in ch) + ']'
@@ -408,22 +416,101 @@ def check_trace_property(shape, cfg):
             depth_seen.add(l)
         if e[0] == 'R':
             _, l, sc = e
-    # bottom level per cycle
-    lev = [e[1] for e in ev]
+    # split the trace into fine-grid cycles: a cycle whose bottom level is 0 is a
+    # single coarsest-level smoothing at level 0; any other cycle runs from a
+    # restriction at level 0 to the matching prolongation at level 0
     ncyc = int(info['it_mg'])
-    # expected bottoms per cycle
+    evs = list(ev)
+    if cfg['nu_init'] > 0 and evs and evs[0][0] == 'S':
+        evs = evs[1:]
     pos = 0
-    # count cycles by level-0 'S' with nu_post or coarse ... use R at level 0 as cycle starts
-    starts = [i for i, e in enumerate(ev) if (e[0] == 'R' and e[1] == 0)]
-    for k, st in enumerate(starts):
-        en = starts[k + 1] if k + 1 < len(starts) else len(ev)
+    for k in range(ncyc):
         sc = psc[k % len(psc)]
         dirs = {0: [0, 1, 2], 1: [1, 2], 2: [0, 2], 3: [0, 1]}[sc]
         bottom = max(cnt[d] for d in dirs)
-        mx = max(e[1] for e in ev[st:en])
+        st = pos
+        if pos >= len(evs):
+            return dict(signature='fewer fine-grid cycles in the trace than reported', **base, cycle=k)
+        if bottom == 0:
+            if evs[pos][0] != 'S' or evs[pos][1] != 0:
+                return dict(signature='recursion does not bottom out at the announced coarsest level',
+                            **base, cycle=k, event=str(evs[pos]), expected_bottom=0)
+            pos += 1
+            continue
+        while pos < len(evs) and not (evs[pos][0] == 'P' and evs[pos][1] == 0):
+            pos += 1
+        pos += 1
+        if cfg['nu_post'] > 0:
+            pos += 1
+        seg = evs[st:pos]
+        mx = max(e[1] for e in seg)
         if mx != bottom:
             return dict(signature='recursion does not bottom out at the announced coarsest level',
                         **base, cycle=k, deepest_level=mx, expected=bottom)
+        got = [(e[0], e[1]) for e in seg if e[0] in 'RP']
+        want = [x for x in textbook_rp(cfg['cycle'], bottom, 0) if x[0] != 'C']
+        if got != want:
+            return dict(signature='levels not visited in the documented V/W/F order',
+                        **base, cycle=k, observed=str(got), required=str(want))
+    return None
+
+
+
+def textbook_rp(cyc, k, l):
+    """Documented V/W/F order as a sequence of ('R', l) / ('C', l) / ('P', l);
+    k = levels below l.  One *visit* of level l."""
+    def V(k, l):
+        return [('C', l)] if k == 0 else [('R', l)] + V(k - 1, l + 1) + [('P', l)]
+
+    def W(k, l):      # a call at level l: visits it twice (once if it is the coarsest)
+        if k == 0:
+            return [('C', l)]
+        v = [('R', l)] + W(k - 1, l + 1) + [('P', l)]
+        return v + v
+
+    def F(k, l):      # a call at level l: F-visit then V-visit
+        if k == 0:
+            return [('C', l)]
+        return ([('R', l)] + F(k - 1, l + 1) + [('P', l)]) + V(k, l)
+    if k == 0:
+        return [('C', l)]
+    sub = {'V': V, 'W': W, 'F': F}[cyc](k - 1, l + 1)
+    return [('R', l)] + sub + [('P', l)]
+
+
+def check_order(shape, cfg, ev, info, cnt):
+    """Level visiting order of every fine cycle against the textbook."""
+    psc = pattern(cfg['semicoarsening'], [1, 2, 3], 3)
+    seq = []
+    cycles = []
+    depth = 0
+    for e in ev:
+        if e[0] == 'S' and e[1] == 0 and e[3] == cfg['nu_init'] and not seq and not cycles \
+                and cfg['nu_init'] > 0 and depth == 0 and not any(x[0] == 'R' for x in seq):
+            # initial smoothing precedes the first cycle
+            if 'init_done' not in cfg:
+                cfg = dict(cfg, init_done=True)
+                continue
+        if e[0] == 'R':
+            seq.append(('R', e[1]))
+        elif e[0] == 'P':
+            seq.append(('P', e[1]))
+            if e[1] == 0:
+                cycles.append(seq)
+                seq = []
+    ncyc = int(info['it_mg'])
+    for k in range(ncyc):
+        scd = psc[k % len(psc)]
+        dirs = {0: [0, 1, 2], 1: [1, 2], 2: [0, 2], 3: [0, 1]}[scd]
+        bottom = max(cnt[d] for d in dirs)
+        if bottom == 0:
+            continue
+        want = [x for x in textbook_rp(cfg['cycle'], bottom, 0) if x[0] != 'C']
+        got = cycles.pop(0) if cycles else None
+        if got != want:
+            return dict(signature='levels not visited in the documented V/W/F order',
+                        shape=list(shape), cfg={a: str(b) for a, b in cfg.items() if a != 'init_done'},
+                        cycle=k, observed=str(got), required=str(want))
     return None
 
 
@@ -431,9 +518,18 @@ def search(ctx, broken):
     rng = ctx.rng
     n = 150 if ctx.thorough else 40
     hits = []
-    for _ in range(n):
-        shape = tuple(rng.choice([2, 3, 4, 5, 6, 7, 8, 10, 12, 16]) for _ in range(3))
+    base_cfg = dict(clevel=-1, nu_init=0, nu_pre=1, nu_coarse=1, nu_post=1, maxit=3, tol=1e-30)
+    fixed = [((48, 5, 3), dict(base_cfg, cycle='F', semicoarsening=123, linerelaxation=4, clevel=2)),
+             ((5, 3, 32), dict(base_cfg, cycle='F', semicoarsening=32, linerelaxation=0)),
+             ((3, 16, 5), dict(base_cfg, cycle='W', semicoarsening=12, linerelaxation=7)),
+             ((16, 8, 4), dict(base_cfg, cycle='F', semicoarsening=True, linerelaxation=True))]
+    for t in range(n):
+        shape = tuple(rng.choice([2, 3, 4, 5, 6, 7, 8, 10, 12, 16, 24, 32]) for _ in range(3))
+        if shape[0] * shape[1] * shape[2] > 4000:
+            shape = (shape[0], 4, 3)
         cfg = rand_cfg(rng)
+        if t < len(fixed):
+            shape, cfg = fixed[t]
         try:
             h = check_trace_property(shape, cfg)
         except RecursionError:
